@@ -289,6 +289,30 @@ def check(ctx):
             (rd.conv[0].data["args"][0].op == "global" and
              rd.conv[0].data["args"][0].args[0] in ("numpy.float64",
                                                     "numpy.double")))
+        if not ok and not rd.conv:
+            # another parser: pandas' C reader is exact only with
+            # float_precision="round_trip" (its default strtod is off by
+            # one ulp for a share of 17-digit decimals); anything else is
+            # not modelled
+            pc = [e for e in rd.r.calls("pandas.read_csv") +
+                  rd.r.calls("pandas.read_table")
+                  if not tm.is_const(e.live, False)]
+            if pc:
+                fp = dict(pc[0].data["kwargs"]).get("float_precision")
+                exact = fp is not None and tm.is_const(fp, "round_trip")
+                ctx.ob("C06.2", pc[0], exact,
+                       f"{name}: parsed by pandas with float_precision="
+                       f"'round_trip' (correctly rounded)" if exact else
+                       f"{name}: parsed by pandas.read_csv with "
+                       f"float_precision={fmt(fp) if fp is not None else 'default'}"
+                       f" — pandas' fast float parser is not correctly "
+                       f"rounded: a share of the 17-digit values written by "
+                       f"evo come back one ulp off",
+                       key=f"C06.2:{name}:float64")
+            else:
+                ctx.undecidable("C06.2", rd.f, f"{name}: how the text "
+                                f"becomes float64 is not recognised")
+            continue
         ctx.ob("C06.2", rd.f, bool(ok),
                f"{name}: text is converted to float64" if ok else
                f"{name}: conversion is not astype(float)",
@@ -654,10 +678,50 @@ def _bag(ctx, prog):
             return True
         return None
     r = Interp(prog, assume=assume).run(f)
+    # values prepared for all messages at once (floor / astype / tolist on
+    # the whole arrays) read like the per-message code
+    from ..lib import push_elem
+    for e in r.events:
+        for k in ("args", ):
+            if isinstance(e.data.get(k), (list, tuple)):
+                e.data[k] = type(e.data[k])(
+                    push_elem(a) if isinstance(a, T) else a
+                    for a in e.data[k])
+        if isinstance(e.data.get("kwargs"), (list, tuple)):
+            e.data["kwargs"] = type(e.data["kwargs"])(
+                (kk, push_elem(v)) for kk, v in e.data["kwargs"])
     zips = r.calls("builtins.zip")
-    ok = bool(zips) and tuple(zips[0].data["args"]) == (
-        tm.attr(traj, "timestamps"), tm.attr(traj, "positions_xyz"),
-        tm.attr(traj, "orientations_quat_wxyz"))
+    views = (tm.attr(traj, "timestamps"), tm.attr(traj, "positions_xyz"),
+             tm.attr(traj, "orientations_quat_wxyz"))
+    ok = bool(zips) and tuple(zips[0].data["args"]) == views
+    if not ok and zips:
+        # the zipped columns are element-wise images of the three views
+        # (and of nothing else), each view present
+        def base(x: T):
+            for _ in range(8):
+                if is_call_to(x, ".tolist", ".astype", ".copy"):
+                    x = tm.method_recv(x)
+                elif is_call_to(x, "numpy.floor", "numpy.asarray") and \
+                        x.args[1]:
+                    x = x.args[1][0]
+                elif x.op == "sub" and tm.is_const(x.args[1]) and \
+                        is_call_to(x.args[0], "numpy.divmod") and \
+                        x.args[0].args[1]:
+                    x = x.args[0].args[1][0]
+                elif x.op == "binop":
+                    vs = [y for y in (x.args[1], x.args[2])
+                          if any(z is v for v in views for z in y.walk())]
+                    if len({id(b_) for b_ in map(base, vs)}) != 1:
+                        return None
+                    x = base(vs[0])
+                    break
+                else:
+                    break
+            return x
+        bases = [base(a) for a in zips[0].data["args"]]
+        ok = all(any(b_ is v for v in views) for b_ in bases) and \
+            all(any(b_ is v for b_ in bases) for v in views)
+    ok_lock = ok
     ctx.ob("C06.4", f, ok,
            "bag writer: stamps, positions and quaternions are iterated in "
            "lock-step, all poses in order" if ok else
@@ -697,6 +761,9 @@ def _bag(ctx, prog):
             it_ = it_.args[1][0]            # for k, (t, p, q) in enumerate(..)
         if is_call_to(it_, "builtins.zip"):
             stamp = T("elem", it_.args[1][0], e.data["lid"])
+            if it_.args[1][0] is not views[0] and ok_lock:
+                # columns prepared from the views: the stamp of message l
+                stamp = T("elem", views[0], e.data["lid"])
     times = [e for e in r.of_kind("call") if len(e.data["args"]) in (1, 2)
              and any(x.op == "const" and x.args[1] ==
                      "builtin_interfaces/msg/Time"
@@ -723,6 +790,13 @@ def _bag(ctx, prog):
     ctx.require(len(targs) == 2, "bag writer: Time(sec, nanosec) "
                 "construction not recognised")
     sec, nsec = targs
+    if sec.op == "sub" and nsec.op == "sub" and sec.args[0] is nsec.args[0] \
+            and is_call_to(sec.args[0], "builtins.divmod", "numpy.divmod") \
+            and tm.is_const(sec.args[1], 0) and tm.is_const(nsec.args[1], 1) \
+            and len(sec.args[0].args[1]) == 2 and not (
+                sec.args[0].args[1][0] is stamp):
+        # both fields from one integer total (divmod(int(stamp * 1e9), 1e9))
+        sec = nsec = sec.args[0].args[1][0]
     floor_ok = is_call_to(sec, "builtins.int", "math.floor") and \
         sec.args[1] and ((sec.args[1][0].op == "binop" and
                           sec.args[1][0].args[0] == "FloorDiv" and
@@ -743,8 +817,10 @@ def _bag(ctx, prog):
             and dm(sec.args[1][0], 0):
         floor_ok = True
     rem = T("binop", "Sub", stamp, sec)
+    rem2 = T("binop", "Sub", stamp, sec.args[1][0]) if (
+        is_call_to(sec, "builtins.int") and sec.args[1]) else rem
     from_rem = any(
-        x is rem or dm(x, 1) or
+        x is rem or x is rem2 or dm(x, 1) or
         (x.op == "binop" and x.args[0] == "Mod" and x.args[1] is stamp and
          one(x.args[2])) for x in nsec.walk()) and any(
         tm.is_const(x) and x.args[1] == 1e9 for x in nsec.walk())
